@@ -1,6 +1,35 @@
 """C12 - gcd, integer roots and integer logarithms satisfy their defining inequalities; log2_bounds encloses; remove()."""
+import os
+import sys
 import core
 from core import hx, gen_int, gen_mag, gen_words_len
+
+# coq/gen/RootTabs.v (RSQRT_TAB / RCBRT_TAB and the guard constants of base/src/ring/root.rs, MIN_DWORD_GUESS_LEN of
+# integer/src/gcd/lehmer.rs) is regenerated from the Rust sources when this plug-in is imported, i.e. before the proof
+# phase of every run (tools/translate.py is shared; it regenerates Log2Tab.v).  C12_root_tabs_are_source proves the
+# copies used by the models equal to it.  Unparseable source is not an alarm: the previous copy stays (marked STALE),
+# the status goes into the evidence and the correspondence run alone ties the models.
+sys.path.insert(0, os.path.join(core.ROOT, "tools"))
+try:
+    import translate_c12_r3
+    ROOT_TABS_STATUS = translate_c12_r3.generate(core.REPO, os.path.join(core.COQ, "gen"))
+except Exception as _ex:  # the generator itself broke: same fallback as an unparseable source
+    ROOT_TABS_STATUS = "unparsed generator-failed: %s" % str(_ex)[:200]
+
+
+def extra_phase(tier, seed, exes, oracle):
+    word = ROOT_TABS_STATUS.split(" ", 1)[0]
+    return {
+        "evaluations": 0,
+        "hist": {"translator_c12:RootTabs:" + word: 1},
+        "nontrivial": [],
+        "samples": [{"fragment": "coq/gen/RootTabs.v (tools/translate_c12_r3.py from base/src/ring/root.rs, integer/src/gcd/lehmer.rs)",
+                     "status": ROOT_TABS_STATUS,
+                     "tied_by": "C12_root_tabs_are_source, C12_prim_sqrt_rem_u16_total, C12_prim_cbrt_rem_u16_total" if word == "ok"
+                                else "correspondence run only (source not parsed; previous copy marked STALE)"}],
+        "failures": [],
+    }
+
 
 ID = "C12"
 READY = True
@@ -21,38 +50,58 @@ def canon_answer(ans):
         return "panic nan"  # log2_bounds(NaN): both builds panic, with different messages
     return ans
 
-LEVEL_TEXT = ("Machine-checked Coq theorems (52 pinned in coq/props/C12.v, all inputs unless a finite domain is stated): complete "
+LEVEL_TEXT = ("Machine-checked Coq theorems (84 pinned in coq/props/C12.v, all inputs unless a finite domain is stated): complete "
               "certificates (a checked gcd/Bezout, root, root-with-remainder, integer-logarithm or remove answer IS the gcd / truncated "
-              "root / floor logarithm / full power); as-is models proved against them: the Newton n-th root iteration of UBig/IBig::nth_root "
-              "and cbrt (correct from any positive first guess; from the repaired guess 2^ceil(bits/n) the climbing loop never runs and "
-              "fuel 2^ceil(bits/n)+1 suffices), the three estimate-then-correct logarithm loops for ANY estimate, the shortcuts of ilog, "
-              "remove() (power-of-two shortcut and square-and-divide), the primitive binary gcd with its division shortcut and the Euclidean "
-              "gcd_ext for every type width, the sqrt_rem_large pre/post-shift algebra around the kernel contract; the no_std log2 table "
-              "estimator proved an enclosure for EVERY u8/u16 value (finite domain 0..65535, by computation); the bracket decision procedure "
-              "that judges log2_bounds answers proved sound. Every implementation answer (std and no_std build) is decided per instance.")
-LEVEL_NOTE = ("Partial where said: the multi-word Lehmer gcd kernel, the Karatsuba square-root kernel and the table/Newton primitive "
-              "roots are not modelled step by step; their answers are decided per instance by the complete certificates. The std "
-              "log2 estimator depends on libm's f32::log2, the no_std estimator for types wider than u16, the big-integer/float/rational "
-              "compositions and the floating-point estimate inside ilog are only checked per instance (bracket arithmetic, proved sound; "
-              "the ilog loops are proved for every estimate). log2 enclosures are stated as integer inequalities 2^m <= x^(2^k), not over R.")
-TECHNIQUE = "Coq proof (certificate completeness + as-is algorithm models) + extracted-checker correspondence run"
+              "root / floor logarithm / full power); as-is models proved against them: the Karatsuba square root kernel of "
+              "integer/src/root.rs (sqrt_rem / sqrt_rem_42: recursive split, division by s1 with the r1 carry trick, q == B overflow, odd "
+              "quotient fix, correction s -= 1, all carry/borrow words) = (isqrt, remainder) for EVERY normalised input, every length "
+              "(induction on the length, fuel n) and every word size >= 2, and sqrt_rem_large around it = sqrt_rem for every integer of "
+              "three or more words; the Lehmer gcd / extended gcd at value level (lehmer_guess cosequence matrix unimodular with entries "
+              "<= COEFF_LIMIT and ended within w+1 iterations; every Lehmer / Euclid step of gcd_in_place and gcd_ext_in_place keeps the "
+              "gcd and the Bezout congruences; the loops end within x+y iterations; sign line and exact division of gcd_ext_large) => "
+              "gcd_large returns the gcd and gcd_ext_large (g, s, t) with g = gcd = s*x + t*y; the Newton n-th root iteration of "
+              "UBig/IBig::nth_root and cbrt; the three estimate-then-correct logarithm loops for ANY estimate, the shortcuts of ilog; "
+              "remove(); the primitive binary gcd and Euclidean gcd_ext for every type width; primitive roots of base/src/ring/root.rs: "
+              "correction loops exact from any underestimate (all n), every answer of the u8/u16/u32/u64 table+Newton routines and "
+              "wrappers is the exact root and remainder (all inputs), every u8/u16 input answered within 3 corrections (finite, by "
+              "computation), tables / guard constants / MIN_DWORD_GUESS_LEN regenerated from the source; the no_std log2 estimator proved "
+              "an enclosure for EVERY u8/u16 value (finite domain 0..65535) and, by the shift argument with exact f32 next_up/next_down "
+              "on bit patterns, for every wider unsigned value below 2^65000; the bracket decision procedure that judges log2_bounds "
+              "answers proved sound. Every implementation answer (std and no_std build) is decided per instance.")
+LEVEL_NOTE = ("Partial where said: the Karatsuba kernel takes div_rem_in_place, sqr and DoubleWord::sqrt_rem through their contracts "
+              "(C02 / C01 / primitive roots) and models slices as values with lengths, not word lists; the Lehmer model is value level "
+              "(lehmer_step / lehmer_ext_step word loops and buffer lengths are not modelled; that the guessed step never goes negative is "
+              "a checked panic branch of the model, observed never to fire, not proved); for u32/u64 primitive roots only soundness of "
+              "an answer is proved for all inputs, that the Newton estimate never overshoots (no panic) and the u128 routines are "
+              "compared per instance. The std log2 estimator depends on libm's f32::log2 (proofs under an explicit libm contract exist "
+              "in Int/GrlLog2StdProof.v but are not pinned: the interval tactic brings in the primitive-float axioms); the "
+              "big-integer/float/rational compositions and the floating-point estimate inside ilog are checked per instance "
+              "(bracket arithmetic, proved sound; the ilog loops are proved for every estimate).")
+TECHNIQUE = "Coq proof (certificate completeness + as-is algorithm models, induction on length / loop invariants) + extracted-checker correspondence run"
 RULE = ("cases = operation x call form x operands from: word-count classes {0,1,2,3,4,5,8,T-1,T,T+1,300+-1} x bit patterns (all-ones, 2^k, "
         "2^k+-1, trailing zero words, top word 1/MAX, sparse) x signs; gcd pairs incl. zero/equal/multiple/shared factor/Fibonacci/huge "
-        "quotient; radicands 0,1,r^n,r^n+-1 for n in {1,2,3,4,5,7,bits-1,bits,bits+1,bits/3+1,huge}; (x,base) with x = base^e,+-1 for bases "
-        "2,2^k,3,10,word,dword,multi-word; log2_bounds of integers, every primitive type (EVERY u8/u16 value exhaustively), f32/f64 "
-        "patterns (plus an arithmetic progression through all 2^32 f32 patterns: stride 1048583 quick, 8191 thorough), FBig in bases 2..36, rationals; remove with planted exponents 0..70; every case in the std and the no_std build of "
-        "dashu-base, answers must agree except the f32 bounds. Non-trivial = a certificate / bracket decision was evaluated on a "
-        "non-degenerate input. asis=same|diff: the implementation answer equals the extracted as-is model (nth_root, cbrt, remove, "
-        "primitive gcd/gcd_ext incl. cofactors, sqrt_rem shift algebra, ilog shortcuts, no_std table bounds).")
+        "quotient; radicands 0,1,r^n,r^n+-1 for n in {1,2,3,4,5,7,bits-1,bits,bits+1,bits/3+1,huge}; the Karatsuba kernel through its "
+        "hook on normalised radicands of 2n words, n in 2..65 (257 thorough): s^2+r with r in {0,1,2s,2s-1,2^(64n)+-1}, high part t^2-1 at "
+        "any recursion level (q == B), 2^(128n)-small, minimum normalised, all top-level branch combinations counted (path=ksqrt-*); "
+        "(x,base) with x = base^e,+-1 for bases 2,2^k,3,10,word,dword,multi-word; log2_bounds of integers, every primitive type (EVERY "
+        "u8/u16 value exhaustively; for u32/u64/u128/usize every shift with top bits 0x8000/0x8001/0xffff/around sqrt 2), f32/f64 "
+        "patterns (plus an arithmetic progression through all 2^32 f32 patterns: stride 1048583 quick, 8191 thorough), FBig in bases "
+        "2..36, rationals; primitive roots of every width incl. every 5th u16 value (all in thorough); remove with planted exponents "
+        "0..70; every case in the std and the no_std build of dashu-base, answers must agree except the f32 bounds. Non-trivial = a "
+        "certificate / bracket decision was evaluated on a non-degenerate input. asis=same|diff: the implementation answer equals the "
+        "extracted as-is model (Karatsuba kernel and sqrt_rem_large, Lehmer gcd / gcd_ext incl. cofactors, primitive sqrt/cbrt of "
+        "every width, nth_root, cbrt, remove, primitive gcd/gcd_ext, ilog shortcuts, no_std table and wide bounds).")
 EXPLANATION = ("Theorems in coq/props/C12.v; the oracle evaluates the extracted certificates/specs on every implementation answer "
-               "(harness/src/bin/c12.rs calls every API of observe_at in all call forms).")
+               "(harness/src/bin/c12.rs calls every API of observe_at in all call forms and the sqrt_rem_kernel hook) and the extracted "
+               "as-is models for the fidelity statistic.")
 TRUSTED_BASE = [
-    "Coq 8.16.1 kernel (coqc; vm_compute used only for the finite no_std log2 table theorems, domain 0..65535 stated, and closed examples)",
+    "Coq 8.16.1 kernel (coqc; vm_compute used only for the finite theorems - no_std log2 table and primitive roots, domain 0..65535 stated - and closed examples)",
     "extraction: ExtrOcamlBasic + ExtrOcamlZBigInt + coq/extract/FastZ.v directives (Z.gcd/Z.sqrt/Z.pow/Z.log2/shifts -> zarith)",
-    "OCaml 4.13.1 + zarith 1.12, oracle/common.ml, oracle/driver_c12.ml (decoding of answers, choice of bracket precision); Rust harness harness/src/bin/c12.rs",
-    "multi-word Lehmer gcd, Karatsuba square root and primitive table/Newton roots: decided per instance by certificates, not modelled step by step",
+    "OCaml 4.13.1 + zarith 1.12, oracle/common.ml, oracle/driver_c12.ml (decoding of answers, choice of bracket precision); Rust harness harness/src/bin/c12.rs; hook dashu_int::verif_hooks::sqrt_rem_kernel",
+    "contracts used by the Karatsuba model: div::div_rem_in_place (C02), sqr::sqr (C01), DoubleWord::sqrt_rem (primitive roots); value-level reading of word slices (C01/C02/C09 prove the word layer)",
+    "Lehmer gcd: word loops of lehmer_step / lehmer_ext_step and buffer bookkeeping are not modelled; u128 primitive roots and the no-overshoot of the u32/u64 Newton estimates are compared per instance",
     "std log2 estimator: libm f32::log2/f64::log2 behaviour is observed only",
-    "LOG2_TAB of base/src/math/log.rs is transcribed by hand into Int/GrlLog2Tab.v (tied per run: the no_std build's answers for all u8/u16 equal the model)",
+    "tools/translate.py (LOG2_TAB) and tools/translate_c12_r3.py (RSQRT_TAB, RCBRT_TAB, guard constants, MIN_DWORD_GUESS_LEN): regular-expression readers of the Rust sources",
 ]
 ASSUMPTIONS = [
     "UBig::from_words / as_words / IBig::from_parts / as_sign_words transport values faithfully",
@@ -326,6 +375,20 @@ def sweep_cases(tier):
     # (every exponent, both signs, subnormals, infinities, NaNs), finer in the thorough tier
     stride = 8191 if tier == "thorough" else 1048583
     out += ["f32log2b %x" % b for b in range(0, 1 << 32, stride)]
+    # the no_std estimator of the wider types: every shift, top 16 bits at the special values (0x8000: power-of-two
+    # special case of the upper bound, 0xffff, around sqrt 2), low bits empty / full / mixed
+    for ty, bits in (("u32", 32), ("u64", 64), ("u128", 128), ("usize", 64)):
+        for k in range(1, bits - 15):
+            for hi in (0x8000, 0x8001, 0xffff, 0xb504, 0xb505, 0xc000 + 37 * k):
+                for low in (0, (1 << k) - 1, (0x5555555555555555555555555555 >> 3) & ((1 << k) - 1)):
+                    out.append("plog2b %s %x" % (ty, (hi << k) | low))
+    # square / cube roots with remainder of the 16-bit values: every 5th value in the quick tier, all in the thorough tier
+    if tier != "thorough":
+        for op in ("psqrt_rem", "pcbrt_rem"):
+            out += ["%s u16 %x" % (op, v) for v in range(0, 65536, 5)]
+        # the inputs that need a third correction step after the table estimate
+        out += ["psqrt_rem u16 %x" % v for v in (4225, 4226, 4227, 16900, 16901, 16908)]
+        out += ["pcbrt_rem u16 %x" % v for v in (512, 515, 4096, 4127, 32768, 33021)]
     if tier == "thorough":
         for op in ("psqrt_rem", "pcbrt_rem"):
             out += ["%s u8 %x" % (op, v) for v in range(256)] + ["%s u16 %x" % (op, v) for v in range(65536)]
